@@ -609,11 +609,21 @@ def i4_single_live_search(ck):
                "summaries": {k[0].split("::")[-1]: {x: v[x] for x in ("stops", "joins_search", "joins_writer")} for k, v in an.sums.memo.items()}})
 
 
+def _wait_fn(prog):
+    """The method that ends a search: by name, or - after a rename - the one method of `Search` that takes the Search by value."""
+    if WAIT in prog.bodies:
+        return WAIT
+    pre = WAIT.rsplit("::", 1)[0] + "::"
+    cands = [n for n, b in prog.bodies.items() if n.startswith(pre) and "{closure" not in n and b.arg_count >= 1 and b.local_ty(1) == pre[:-2]]
+    return cands[0] if len(cands) == 1 else WAIT
+
+
 def i4_wait_cancel(ck):
     prog = ck.prog
-    b = ck.body(WAIT, "I4w")
+    wait = _wait_fn(prog)
+    b = ck.body(wait, "I4w")
     sums = SearchSummary(prog)
-    sm = sums.of(WAIT, 1)
+    sm = sums.of(wait, 1)
     ck.req(sm["stops"], "I4w.stop_sent", "wait_cancel", b.where(), "wait_cancel does not send ControlEvent::Stop on the search's control channel on every path")
     ck.req(sm["joins_search"], "I4w.joins_search", "wait_cancel", b.where(), "wait_cancel does not join the search thread on every path")
     ck.req(sm["joins_writer"], "I4w.joins_writer", "wait_cancel", b.where(),
@@ -881,6 +891,11 @@ def i8_exit(ck):
         ck.req(ok, "I8.returns_ok", "Client::exec", ex.where(s.get("line")), "Client::exec can return something other than Ok(()): the process would exit with status 1")
     # end of input: the loop head's exit edge leads to the return, not to a panic
     exit_blocks = cfg.reachable(ex, [sh.loop_head]) - set().union(*[cfg.natural_loop(ex, be) for be in cfg.back_edges(ex) if be[1] == sh.loop_head] or [set()])
+    # diverging blocks that belong to a command arm (an assert inside `go`, say) are that arm's business (C14's inventory of explicit
+    # panics in exec), not the end-of-input path: drop what an arm entry dominates
+    dom = cfg.dominators(ex)
+    arm_entries = {e for k_, e in arms.items() if isinstance(e, int)}
+    exit_blocks = {b for b in exit_blocks if not (arm_entries & set(dom.get(b, ())))}
     pan = [callee_name(ex.term(b)) for b in exit_blocks if not ex.is_cleanup(b) and ex.term(b)["k"] == "call" and ex.term(b).get("target") is None]
     ck.req(not pan, "I8.eof", "loop exit", ex.where(), "after the command loop ends Client::exec can diverge (%s)" % pan[:1])
     # the CLI exits non-zero only when run() returned Err, and run() returns exec()'s result through Context::context
